@@ -131,6 +131,9 @@ func cmdCheck(args []string) {
 		if !ok {
 			continue
 		}
+		if only := os.Getenv("VERIF_ONLY"); only != "" && !strings.Contains(h.Fn, only) {
+			continue // debugging aid: restrict a run to some harnesses (evidence then goes to a scratch file)
+		}
 		pkgSet[h.Pkg] = true
 		todo = append(todo, hs)
 		whats = append(whats, h.What)
@@ -194,6 +197,18 @@ func cmdCheck(args []string) {
 				// fall back to the recorded schedule (deterministic re-execution by the engine)
 				for try := 0; try < 2 && !confirmed; try++ {
 					confirmed, out = replay(l, todo[i], v, dir)
+				}
+				if !confirmed {
+					// widen the race window natively: delay the preempted thread at the
+					// source positions where the schedule preempts it
+					if extra := delayOverlay(v, dir); len(extra) > 0 {
+						for try := 0; try < 3 && !confirmed; try++ {
+							confirmed, out = replayWith(l, todo[i], v, dir, extra)
+						}
+						if confirmed {
+							v.Notes = append(v.Notes, "native replay with delays injected at the schedule's preemption points")
+						}
+					}
 				}
 				if !confirmed {
 					os.WriteFile(filepath.Join(dir, "NOTE.txt"), []byte("The native (unscheduled) run did not hit this interleaving in 3 attempts.\nThe violation is reproduced deterministically by re-running the engine on the real SSA with the\nrecorded schedule (model.json: trace):\n  cd /verif && bin/gosmt run -pkg "+todo[i].Pkg+" -fn '^"+todo[i].Fn+"$' -K "+fmt.Sprint(todo[i].K)+"\n"), 0o644)
@@ -292,6 +307,84 @@ func matchKnown(k KnownFile, id, harness string, v *Violation) *KnownFinding {
 
 // replay runs the harness natively with the solver's model and reports whether the violation reproduces.
 func replay(l *Loaded, hs HarnessSpec, v *Violation, dir string) (bool, string) {
+	return replayWith(l, hs, v, dir, nil)
+}
+
+// delayOverlay builds modified copies of the library source files in which a short sleep
+// is inserted before each statement at which the recorded schedule preempts a thread.
+// Returns virtual path -> modified file.
+func delayOverlay(v *Violation, dir string) map[string]string {
+	type key struct {
+		file string
+		line int
+	}
+	pts := map[string][]int{}
+	for _, ev := range v.Trace {
+		if !ev.Preempt {
+			continue
+		}
+		i := strings.LastIndex(ev.Pos, ":")
+		if i < 0 {
+			continue
+		}
+		file := ev.Pos[:i]
+		var line int
+		fmt.Sscanf(ev.Pos[i+1:], "%d", &line)
+		if !strings.HasPrefix(file, repoDir()+"/") || strings.Contains(file, "zz_verif_") || strings.Contains(file, "/internal/verifrt/") || line <= 0 {
+			continue
+		}
+		pts[file] = append(pts[file], line)
+	}
+	out := map[string]string{}
+	pkgDirs := map[string]string{}
+	n := 0
+	for file, lines := range pts {
+		b, err := os.ReadFile(file)
+		if err != nil {
+			continue
+		}
+		src := strings.Split(string(b), "\n")
+		pkgName := ""
+		for _, l := range src {
+			if strings.HasPrefix(l, "package ") {
+				pkgName = strings.TrimSpace(strings.TrimPrefix(l, "package "))
+				break
+			}
+		}
+		ok := false
+		for _, ln := range lines {
+			if ln-1 >= len(src) {
+				continue
+			}
+			t := strings.TrimSpace(src[ln-1])
+			if t == "" || strings.HasPrefix(t, "case ") || strings.HasPrefix(t, "default") || strings.HasPrefix(t, "}") || strings.HasPrefix(t, ")") || strings.HasPrefix(t, "//") || strings.HasPrefix(t, ".") {
+				continue
+			}
+			if strings.Contains(src[ln-1], "zzVerifDelay()") {
+				continue
+			}
+			indent := src[ln-1][:len(src[ln-1])-len(strings.TrimLeft(src[ln-1], " \t"))]
+			src[ln-1] = indent + "zzVerifDelay(); " + strings.TrimLeft(src[ln-1], " \t")
+			ok = true
+		}
+		if !ok || pkgName == "" {
+			continue
+		}
+		n++
+		mod := filepath.Join(dir, fmt.Sprintf("delayed_%d_%s", n, filepath.Base(file)))
+		os.WriteFile(mod, []byte(strings.Join(src, "\n")), 0o644)
+		out[file] = mod
+		pkgDirs[filepath.Dir(file)] = pkgName
+	}
+	for d, pkgName := range pkgDirs {
+		helper := filepath.Join(dir, "zz_verif_delay_"+pkgName+".go")
+		os.WriteFile(helper, []byte("package "+pkgName+"\n\nimport \"time\"\n\nfunc zzVerifDelay() { time.Sleep(40 * time.Millisecond) }\n"), 0o644)
+		out[filepath.Join(d, "zz_verif_delay.go")] = helper
+	}
+	return out
+}
+
+func replayWith(l *Loaded, hs HarnessSpec, v *Violation, dir string, extra map[string]string) (bool, string) {
 	os.MkdirAll(dir, 0o755)
 	mf := map[string]interface{}{"model": v.Model, "params": hs.Params, "trace": v.Trace, "label": v.Label, "kind": v.Kind, "notes": v.Notes, "K": hs.K}
 	mb, _ := json.MarshalIndent(mf, "", " ")
@@ -325,6 +418,9 @@ func TestVerifReplay(t *testing.T) {
 		repl[virt] = real
 	}
 	repl[filepath.Join(repoDir(), hs.Pkg, "zz_verif_replay_test.go")] = testPath
+	for k, f := range extra {
+		repl[k] = f
+	}
 	ob, _ := json.MarshalIndent(map[string]interface{}{"Replace": repl}, "", " ")
 	ovPath := filepath.Join(dir, "overlay.json")
 	os.WriteFile(ovPath, ob, 0o644)
@@ -453,6 +549,10 @@ func writeEvidence(id, tier string, seed int, spec CheckSpec, todo []HarnessSpec
 	}
 	b, _ := json.MarshalIndent(ev, "", " ")
 	os.MkdirAll(filepath.Join(verifDir(), "evidence"), 0o755)
+	if os.Getenv("VERIF_ONLY") != "" {
+		os.WriteFile(filepath.Join(os.TempDir(), "verif_partial_"+id+".json"), b, 0o644)
+		return
+	}
 	os.WriteFile(filepath.Join(verifDir(), "evidence", id+".json"), b, 0o644)
 }
 
